@@ -49,9 +49,27 @@ type c14Case struct {
 }
 
 var c14HostPool = []string{"www.corp.example.com", "www.corp-example.com", "intranet", "db", "api.v2.corp.example.com", "mail.partner.example.org", "wwwxcorp.example.com",
-	"a.b.c.d.example.net", "printer.local", "x.corp.example.com.evil.test", "10.1.2.3", "192.168.7.9", "www.corp.example.comx", "glob1.example", "globa.example", "glob12.example", "localhost"}
+	"a.b.c.d.example.net", "printer.local", "x.corp.example.com.evil.test", "10.1.2.3", "192.168.7.9", "www.corp.example.comx", "glob1.example", "globa.example", "glob12.example", "localhost", "intraxnet", "intra.net", "intra-net"}
 
-var c14Results = []string{"DIRECT", "PROXY proxy-a.example:8080", "HTTPS proxy-b.example:8443; DIRECT", "SOCKS5 socks-s.example:1080", "PROXY p1.example:1; PROXY p2.example:2", ""}
+var c14Results = []string{"DIRECT", "PROXY proxy-a.example:8080", "HTTPS proxy-b.example:8443; DIRECT", "SOCKS5 socks-s.example:1080", "PROXY p1.example:1; PROXY p2.example:2", "",
+	"PROXY [2001:db8::1]:3128", "HTTPS [fd00::2]:8443; PROXY 10.1.1.1:80", "PROXY [2001:db8::1]", "PROXY 2001:db8::1:3128", "PROXY a:b:80", "SOCKS5 [::1]1080"}
+
+// c14ResultParse is what the result-list grammar says about each entry of the lists above: scheme, host, port of
+// every well-formed entry, or "malformed".
+var c14ResultParse = map[string][]string{
+	"DIRECT":                     {"direct"},
+	"PROXY proxy-a.example:8080": {"http proxy-a.example 8080"},
+	"HTTPS proxy-b.example:8443; DIRECT":      {"https proxy-b.example 8443", "direct"},
+	"SOCKS5 socks-s.example:1080":             {"socks5 socks-s.example 1080"},
+	"PROXY p1.example:1; PROXY p2.example:2":  {"http p1.example 1", "http p2.example 2"},
+	"":                                        {},
+	"PROXY [2001:db8::1]:3128":                {"http 2001:db8::1 3128"},
+	"HTTPS [fd00::2]:8443; PROXY 10.1.1.1:80": {"https fd00::2 8443", "http 10.1.1.1 80"},
+	"PROXY [2001:db8::1]":                     nil, // malformed: no port
+	"PROXY 2001:db8::1:3128":                  nil, // malformed: IPv6 literal without brackets
+	"PROXY a:b:80":                            nil,
+	"SOCKS5 [::1]1080":                        nil,
+}
 
 func genC14(t *tape.Tape, tier string) any {
 	c := &c14Case{Zone: map[string]c14Zone{}, Bad: map[string]string{}}
@@ -90,7 +108,18 @@ func genC14(t *tape.Tape, tier string) any {
 		cd.Ret = c14Results[t.Intn(len(c14Results))]
 		c.Conds = append(c.Conds, cd)
 	}
+	if t.Chance(1, 6) {
+		// two globs, the first of which, rewritten as a regular expression, spells the second one
+		a := c14Cond{Fn: "shExpMatch", Args: []string{"intra?net"}, Neg: true, Ret: c14Results[t.Intn(len(c14Results))]}
+		b := c14Cond{Fn: "shExpMatch", Args: []string{"intra.net"}, Ret: c14Results[t.Intn(len(c14Results))]}
+		c.Conds = append(c.Conds, a, b)
+	}
 	c.Default = c14Results[t.Intn(len(c14Results))]
+	for _, cd := range c.Conds {
+		if cd.Fn == "shExpMatch" && cd.Args[0] == "intra.net" {
+			c.Hosts = append(c.Hosts, "intra-net", "intra.net", "intraxnet")
+		}
+	}
 	// hosts and their DNS
 	k := 2 + t.Intn(8)
 	if t.Chance(1, 5) {
@@ -517,20 +546,29 @@ func runC14(env *core.Env, ci any) {
 				continue
 			}
 			if refOK {
-				// result list parsing
+				// result list parsing: each well-formed entry maps to its proxy (keyword -> scheme, host, port), malformed
+				// entries are rejected
 				list := strings.SplitN(sq.res, " #", 2)[0]
+				want, known := c14ResultParse[list]
 				all, perr := pac.Proxies(list).All()
-				want := 0
-				for _, e := range strings.Split(list, ";") {
-					if strings.TrimSpace(e) != "" || list != "" {
-						want++
+				switch {
+				case !known:
+				case want == nil:
+					if perr == nil {
+						env.Fail("pac-result-parse", list, "result list %q contains a malformed entry but was parsed without error into %v", list, all)
 					}
-				}
-				if list == "" {
-					want = 0
-				}
-				if perr != nil || len(all) != want {
-					env.Fail("pac-result-parse", list, "result list %q parsed into %d entries (error %v), expected %d", list, len(all), perr, want)
+				default:
+					var got []string
+					for _, p := range all {
+						if u := p.URL(); u == nil {
+							got = append(got, "direct")
+						} else {
+							got = append(got, u.Scheme+" "+u.Hostname()+" "+u.Port())
+						}
+					}
+					if perr != nil || !eqStrings(got, want) {
+						env.Fail("pac-result-parse", list, "result list %q parsed into %v (error %v), the grammar says %v", list, got, perr, want)
+					}
 				}
 			}
 		}
